@@ -1367,23 +1367,39 @@ func (c *Cluster) AwaitPublished(id uint64, timeout time.Duration) bool {
 }
 
 // TickWatermarks makes every live source runner emit a watermark now (stamped with its current event-time watermark when
-// it is sent, i.e. after everything the runner has read so far).
-func (c *Cluster) TickWatermarks() {
+// it is sent, i.e. after everything the runner has read so far). It returns when every live runner has taken its tick.
+func (c *Cluster) TickWatermarks() bool {
+	_, ok := c.TickWatermarksTimed()
+	return ok
+}
+
+// TickWatermarksTimed is TickWatermarks reporting the longest time a runner took to accept its tick. The hand-over is a
+// rendezvous with the runner's event loop: it waits for the event itself (no short deadline - a busy machine must not turn
+// into a lost watermark); only a runner that does not take its tick for a minute, i.e. a hung one, makes it return false.
+func (c *Cluster) TickWatermarksTimed() (time.Duration, bool) {
 	c.mu.Lock()
 	ws := append([]*worker{}, c.workers...)
 	c.mu.Unlock()
+	var slowest time.Duration
+	ok := true
 	for _, w := range ws {
 		if w.isDead() {
 			continue
 		}
 		if ch := w.wmTicks.Load(); ch != nil {
+			t0 := time.Now()
 			select {
 			case *ch <- time.Now():
 			case <-w.dead:
-			case <-time.After(50 * time.Millisecond):
+			case <-time.After(time.Minute):
+				ok = false
+			}
+			if d := time.Since(t0); d > slowest {
+				slowest = d
 			}
 		}
 	}
+	return slowest, ok
 }
 
 // AwaitCurrent waits (polling; liveness only) until the current job's in-memory latest checkpoint is at least id: the store
